@@ -4,6 +4,10 @@ import json, os
 ROOT = os.path.dirname(os.path.dirname(os.path.abspath(__file__)))
 TRUST = "Trusted: Lean 4.33 kernel; axioms propext/Classical.choice/Quot.sound only (audited per theorem on every run, no sorry/native_decide); tools/extract.py for regenerated tables/constants; the correspondence harness and driver; clang/ASan/libc. The C semantics of the mirrored functions is modelled (validated by behaviour on every run), not derived."
 CLAIMED = {
+ "C01": ("Lean 4 theorems (Props/C01.lean) over the model of lbuf_rd/lbuf_wr/write_fully/sbuf: line splitting and re-joining, the read buffer never overflows for any chunking, the bytes written for any line range are exactly the lines for every batch size and every schedule of short writes (and the coalescing buffer never overflows), any previous file content is replaced exactly, read-then-write round trip. Sizes (1 KiB, 4 KiB, 512) are parameters regenerated from lbuf.c. Tied by scripted read/write outcomes at the size boundaries.",
+         "ex-level glue (:w ranges, :e) is tied under C03/C06."),
+ "C04": ("Lean 4 theorem refines_zipper (Props/C04.lean, Lemmas/Hist*.lean): for every history of commands, undo and redo of any length the model of lbuf.c never traps and equals a zipper of whole texts, with the corollaries of the property (exact undo/redo, redo branch discarded, ends fail unchanged, compound command = one step). Tied by exhaustive operation sequences and long random histories at the lbuf API (text, return codes, marks, history cursor).",
+         "That each editor command bumps the sequence counter exactly once is tied at the ex/vi level (C02, C15, C20)."),
  "C16": ("Lean 4 theorems (Props/C16.lean) over the model of uc.c for all code points and all strings: len/code/put agree with the arithmetic encoder, slen/chr/off/next/prev/sub/chop agree with code-point segmentation and round-trip. Model tied to uc.c (and regex.c's private copies) by an exhaustive run over all 1,114,111 code points plus exhaustive small strings.",
          "The clause 'edits keep text valid UTF-8' is carried by C08/C14."),
  "C17": ("Lean 4 theorems (Props/C17.lean): bisection equals membership on the regenerated sorted tables (width class of every code point), ren_cwid equals the reference cell width and is >= 1, the fast and the reordered layout are gap-free tilings for every permutation, offset->column->offset round-trips. Tied to ren.c/uc.c by all code points (exhaustive) and generated lines over all offsets/columns/options.",
